@@ -2,6 +2,7 @@
 #include "ssw_ghost.h"
 #include "ps_endpointer.c"
 #include "ps_endpointer.contracts.h"
+#include "mem.contracts.h"
 #include "ssw_stubs.h"
 #ifdef SSW_REPLAY
 /* the VAD is not part of the replayed functions */
@@ -20,6 +21,9 @@ void h_ep_speech_count(void) { endpointer_t *ep; ep_speech_count(ep); VERIF_CANA
 void h_ep_linearize(void) { endpointer_t *ep; ep_linearize(ep); VERIF_CANARY(); }
 void h_ep_empty(void) { endpointer_t *ep; ep_empty(ep); VERIF_CANARY(); }
 void h_ep_full(void) { endpointer_t *ep; ep_full(ep); VERIF_CANARY(); }
+#ifndef EP_SYMBOLIC_MAXLEN
+void h_endpointer_end_stream(void) { endpointer_t *ep; const int16 *f; size_t n; size_t *o; endpointer_end_stream(ep, f, n, o); VERIF_CANARY(); }
+#endif
 void h_endpointer_process(void) { endpointer_t *ep; const int16 *f; endpointer_process(ep, f); VERIF_CANARY(); }
 #endif
 
